@@ -215,3 +215,17 @@ func didAddr(tag byte) common.Uint168 {
 	a[0] = 0x67
 	return a
 }
+
+// NextTurn builds a NextTurnDPOSInfo transaction: no inputs and no outputs (the node creates
+// these itself at every arbiter turn), so the unspent index never holds an entry for it.
+func NextTurn(nonce byte, workingHeight uint32) interfaces.Transaction {
+	p := &payload.NextTurnDPOSInfo{
+		WorkingHeight:  workingHeight,
+		CRPublicKeys:   [][]byte{bytes33(0x02, nonce)},
+		DPOSPublicKeys: [][]byte{bytes33(0x03, nonce)},
+	}
+	return functions.CreateTransaction(
+		common2.TxVersion09, common2.NextTurnDPOSInfo, payload.NextTurnDPOSInfoVersion, p,
+		[]*common2.Attribute{{Usage: common2.Nonce, Data: []byte{nonce}}},
+		[]*common2.Input{}, []*common2.Output{}, 0, noProgs())
+}
